@@ -509,3 +509,6 @@ def _accumulation(ctx, m, cls, fi, kernel, roles, binning_arg, binning_expr):
         raise AnalysisError(f"{cls}.fill_n does not call {kernel}")
     for key, (ok, detail, n) in verdict.items():
         ctx.check(ok, "C03.d", key, f"{detail} (all {n} paths)", detail, fi.where)
+
+    # shared with C02.a: every kernel result is consumed (and only as what it is) where ND histograms are built / filled
+    ctx.borrow("C02", ("HistogramND.from_calculate_frequencies:consumes-kernel-results", "HistogramND.fill_n:consumes-kernel-results"), "C03.d")
